@@ -56,6 +56,22 @@ def run(res, tier, replay):
             badcab = cabfmt.build_cab(fp, hook_files(files), **c.kw)
             for combo in combos:
                 scns.append(scn({"x": badcab}, ["x"], combo, len(c.members))); meta.append(("fidx", i, combo, c, None))
+    # search() instead of open(): a valid cabinet that holds, stored, a member which is itself a cabinet.  The scanner skips the
+    # bytes of a cabinet it has read; relaxed modes must not make it report what lies inside
+    class _C: pass
+    for i in range(max(2, n // 3)):
+        inner = gen.cab_single(rng, nfolders=1, methods=[("none",)]).files["in0.cab"]
+        mem = [cabfmt.Member(b"a.txt", bytes(rng.choice(b"abc\n") for _ in range(rng.choice([5, 300])))), cabfmt.Member(b"inner.cab", inner),
+               cabfmt.Member(b"z.bin", bytes(rng.randrange(256) for _ in range(rng.choice([0, 40]))))]
+        if rng.random() < 0.5: mem = mem[:2]
+        fo = cabfmt.Folder(("none",) if i % 2 == 0 else ("mszip",), mem)
+        outer = cabfmt.build_single([fo], rng)
+        c = _C(); c.members = mem; c.folders = [fo]; c.files = {"in0.cab": outer}; c.parts = ["in0.cab"]
+        for tail in (b"", b"\0"):
+            for combo in combos:
+                sc = scenario.Scn().file("in0.cab", outer + tail).op("cab_new").op("cab_param", 3, combo[0]).op("cab_param", 1, combo[1])
+                sc.op("cab_search", "c0", "in0.cab").op("cab_list", "c0").op("cab_extract_all", "c0", "out", 60)
+                scns.append(sc); meta.append(("valid", 1000 + 2 * i + len(tail), combo, c, None))
     trs = scenario.run_scenarios(exe, scns)
     nbad = 0
     def summary(t):
